@@ -18,7 +18,7 @@ func init() {
 		Technique:   "constant/table agreement (statusOrder permutation, Ready() set by constant-folding its switch), who-may-write of the ready markers, guarded-sink / loop-latch / ordering reachability on Change.detectChangeReady, Change.Err, daemon.abortChange and the TaskRunner lock order",
 		Explanation: "Structural necessary conditions for 'every change settles; status consistent and monotone': (R1) statusOrder is a duplicate-free permutation of every Status constant except Default and Status.Ready() accepts exactly {Done, Undone, Hold, Error}; (R2) Change.readyTime and the ready channel are written only by markReady (first time only) and by unmarshalling, and detectChangeReady reaches markReady only after its loop advanced solely across the excluded task or tasks whose status is Ready(); (R3) daemon.abortChange aborts only a change that is not ready, and the only other caller of Change.Abort is State.Prune on a change with zero ready time; (R4) Change.Err reports nil only when the status is not Error, has no early exit from its task loop, skips a task only when its status is not Error, and examines every line of a failed task's log (no first-match exit); (R5) wherever TaskRunner code takes both locks, r.mu is taken before the state lock, and the functions documented to run with the state lock held take neither; (R6) no reviewed transition leaves a ready status except Done->Undo (abort of finished work); (R7) in the wait aggregation (Change.isTaskWaiting) the dependency statuses that leave the verdict untouched are exactly the ready statuses, Wait forces it true, and Do/Undo recurse over WaitTasks/HaltTasks.",
 		NotDecided:  "liveness proper (that handlers return); that the aggregate equals the documented function for every multiset of task statuses (isChangeWaiting / priority scan are value-level).",
-		Run:         func(c *Ctx) { runC03(c); runC03x(c); runC03y(c) },
+		Run:         func(c *Ctx) { runC03(c); runC03x(c); runC03y(c); runC03z(c) },
 	})
 }
 
